@@ -138,6 +138,11 @@ func (fc *FnCtx) trModel(st *State, call *ast.CallExpr, fn *types.Func, recvExpr
 		return vs
 	}
 	switch full {
+	case "os.WriteFile":
+		vs := args()
+		fc.noteWrite(st, &vs[0], &vs[1])
+		e := fc.freshVal(st, "werr", SInt, nil)
+		return []Val{e}, true
 	case "os.Exit":
 		args()
 		st.env["$outcome"] = Val{T: "exit", S: SOpaque}
@@ -293,3 +298,32 @@ func (fc *FnCtx) trModel(st *State, call *ast.CallExpr, fn *types.Func, recvExpr
 
 var _ = fmt.Sprintf
 var _ = strings.TrimSpace
+
+// ghost file-system write counter (DESIGN 2.7)
+func (fc *FnCtx) fsWrites(st *State) Val {
+	return fc.readKey(st, "ghost.fsWrites", types.Typ[types.Int])
+}
+
+func (fc *FnCtx) noteWrite(st *State, path, data *Val) {
+	n := fc.fsWrites(st)
+	st.env["ghost.fsWrites"] = Val{T: "(+ " + n.T + " 1)", S: SInt, GT: types.Typ[types.Int]}
+	if path != nil && path.S == SStr {
+		st.env["ghost.lastWritePath"] = *path
+	} else {
+		st.env["ghost.lastWritePath"] = fc.freshVal(st, "wpath", SStr, nil)
+	}
+	if data != nil && data.S == SStr {
+		st.env["ghost.lastWriteData"] = *data
+	} else {
+		st.env["ghost.lastWriteData"] = fc.freshVal(st, "wdata", SStr, nil)
+	}
+}
+
+func (fc *FnCtx) havocWrites(st *State) {
+	n := fc.fsWrites(st)
+	nv := fc.freshVal(st, "fsw", SInt, types.Typ[types.Int])
+	st.addAssume("(>= " + nv.T + " " + n.T + ")")
+	st.env["ghost.fsWrites"] = nv
+	st.env["ghost.lastWritePath"] = fc.freshVal(st, "wpath", SStr, nil)
+	st.env["ghost.lastWriteData"] = fc.freshVal(st, "wdata", SStr, nil)
+}
